@@ -265,3 +265,54 @@ fn c15_polynomial_algebra() {
     }
     finish("c15_polynomial_algebra", cases, bad);
 }
+
+// C14: exponentiation (u64 / BigUint / power-of-two / inverse) against square-and-multiply over the naive product, incl. the zero base and exponents around
+// multiples of the group order; the `Powers` iterator (also after it has been advanced or started at a non-trivial element) and its Frobenius image
+fn exp_battery<const D: usize, E: Field + Frobenius<D> + FieldExtension<D, BaseField = F>>(tag: &str, bad: &mut Vec<String>, cases: &mut usize) {
+    let naive = |x: E, e: &BigUint| -> E { let mut acc = E::ONE; for i in (0..e.bits()).rev() { acc = acc * acc; if e.bit(i) { acc = acc * x; } } acc };
+    let q = E::order();
+    let qm1 = &q - 1u32;
+    let mut s = 0xD1B5_4A32_D192_ED03u64 ^ seed();
+    let mut rnd = || { s ^= s << 13; s ^= s >> 7; s ^= s << 17; F::from_noncanonical_u64(s) };
+    let mut elems: Vec<E> = vec![E::ZERO, E::ONE, E::TWO, E::NEG_ONE, E::MULTIPLICATIVE_GROUP_GENERATOR];
+    for _ in 0..3 { let arr: [F; D] = core::array::from_fn(|_| rnd()); elems.push(E::from_basefield_array(arr)); }
+    let exps: Vec<BigUint> = vec![BigUint::from(0u32), BigUint::from(1u32), BigUint::from(2u32), BigUint::from(u64::MAX), BigUint::from(u64::MAX) + 1u32,
+        &qm1 - 1u32, qm1.clone(), q.clone(), &qm1 * 2u32, &qm1 * 3u32 + 5u32, &q * &q, (BigUint::from(1u32) << 130) + 12345u32];
+    for &x in &elems {
+        for e in &exps {
+            *cases += 1;
+            let got = x.exp_biguint(e);
+            if got != naive(x, e) { bad.push(format!("{tag}: exp_biguint({:?}, {e}) differs from square-and-multiply", x.to_basefield_array().map(|c| c.to_canonical_u64()))); }
+        }
+        for e in [0u64, 1, 2, 3, 63, 64, 65, u32::MAX as u64, 1 << 32, u64::MAX - 1, u64::MAX] {
+            *cases += 1;
+            if x.exp_u64(e) != naive(x, &BigUint::from(e)) { bad.push(format!("{tag}: exp_u64({:?}, {e}) differs from square-and-multiply", x.to_basefield_array().map(|c| c.to_canonical_u64()))); }
+        }
+        for k in [0usize, 1, 5, 32, 64] { *cases += 1; if x.exp_power_of_2(k) != naive(x, &(BigUint::from(1u32) << k)) { bad.push(format!("{tag}: exp_power_of_2(_, {k}) wrong")); } }
+        *cases += 1;
+        match x.try_inverse() { None => { if x != E::ZERO { bad.push(format!("{tag}: non-zero element has no inverse")); } } Some(i) => { if x == E::ZERO { bad.push(format!("{tag}: zero has an inverse")); } else if i * x != E::ONE { bad.push(format!("{tag}: x * inverse(x) != 1")); } } }
+    }
+    // Powers: fresh, shifted, advanced; Frobenius image of the remaining sequence
+    for &b in &elems[2..] { for &start in &[E::ONE, elems[4], elems[5]] { for skip in [0usize, 1, 3] { for k in 0..=D {
+        let mut it = b.shifted_powers(start);
+        for _ in 0..skip { it.next(); }
+        let expect: Vec<E> = (0..5).map(|i| (start * naive(b, &BigUint::from((skip + i) as u64))).repeated_frobenius(k)).collect();
+        let got: Vec<E> = it.repeated_frobenius(k).take(5).collect();
+        *cases += 1;
+        if got != expect { bad.push(format!("{tag}: powers of a base started at {}, advanced by {skip}, under Frobenius^{k}: sequence differs from the element-wise image", if start == E::ONE { "1" } else { "a general element" })); }
+    } } } }
+}
+
+#[test]
+fn c14_exponentiation_and_powers() {
+    let mut bad = Vec::new();
+    let mut cases = 0usize;
+    exp_battery::<1, F>("base field", &mut bad, &mut cases);
+    exp_battery::<2, QuadraticExtension<F>>("quadratic", &mut bad, &mut cases);
+    exp_battery::<4, QuarticExtension<F>>("quartic", &mut bad, &mut cases);
+    exp_battery::<5, QuinticExtension<F>>("quintic", &mut bad, &mut cases);
+    // zero in non-canonical form has no inverse either
+    for raw in [0u64, P] { cases += 1; if F::from_noncanonical_u64(raw).try_inverse().is_some() { bad.push(format!("base field: the representation {raw:#x} of zero has an inverse")); } }
+    { let z = F::ONE + F::NEG_ONE; cases += 1; if z.try_inverse().is_some() { bad.push("base field: 1 + (-1) has an inverse".into()); } }
+    finish("c14_exponentiation_and_powers", cases, bad);
+}
